@@ -161,6 +161,19 @@ def evaluate(ctx, idx_cases, rw_cases, cfgs):
                                    oracle_fails=True, key=key, cfg=cfg)
                 if len(corr.samples) < 12 and M > 1 and N > 1 and lay != "strided":
                     corr.sample({"rw": cj, "impl": o})
+            # plain arrays with a narrow index type, up to exactly 2^bits cells (all indices representable, the count is not)
+            ax = [(8, 0), (8, 1), (8, 17), (8, 255), (8, 256), (16, 300), (16, 65535), (16, 65536), (32, 1000), (64, 77)]
+            aouts, _ = C.run_lines(exes[(f"rw{ct}{t}", cfg)], [f"arrix {b} {n}" for b, n in ax], timeout_per_line=1.0)
+            for (b, n), o in zip(ax, aouts):
+                corr.configs[cfg] += 1
+                corr.case(("arrix", b, n, t, cfg), n >= 2)
+                corr.dist[f"arrix/u{b}"] += 1
+                bad = o != f"ok {n} {n}"
+                corr.add_obl("array_rw", 1, 1 if bad else 0)
+                if bad:
+                    corr.violation("array_rw", f"array<{'float' if t == 0 else 'double'}1, uint{b}_t> of {n} cells: {o}",
+                                   {"op": "arrix", "bits": b, "n": n, "ct": ct, "t": t, "cfg": cfg}, impl=o, model=f"ok {n} {n}",
+                                   oracle_fails=True, key={"kind": "arrix", "bits": b, "n": n}, cfg=cfg)
     # smallest failing boxes first: the replay is the minimal case found
     corr.violations.sort(key=lambda v: (not v["oracle_fails"], L.prod(v["case"].get("sz", [1])), sum(v["case"].get("co", [0]))))
     return corr
@@ -177,6 +190,8 @@ def replay(ctx):
     cfg = [c.get("cfg", "dbg")]
     if c["op"] == "rw":
         return evaluate(ctx, [], [(c["lay"], c["ct"], c["t"], c["N"], c["M"], c["sz"])], cfg)
+    if c["op"] == "arrix":     # the fixed narrow-index list runs with every rw variant: one tiny rw case selects the variant
+        return evaluate(ctx, [], [("strided", c["ct"], c["t"], 1, 1, [1])], cfg)
     if c["op"] == "alloc":
         return evaluate(ctx, [(c["lay"], "u64", c["sz"], [0] * len(c["sz"]))], [], cfg)
     cases = [(c["lay"], c["ct"], c["sz"], c["co"])]
